@@ -214,6 +214,6 @@ Proof.
                     (map (fun x => (x, ddc_amount cr c sum x)) (d_charges d))) in CD.
     destruct (tax_lines lcs (d_lines d) _ _) as [|tl0 tls0]; [discriminate|].
     destruct (remove_included_all (d_pit d) (map (prepare_tl c) (tl0 :: tls0))) as [tls2|]; [|discriminate].
-    inversion CD as [CDt]. cbn [t_adv_rows t_dues].
-    rewrite (advances_reread c _ _ Hadv), dues_reread. reflexivity.
+    inversion CD as [CDt]. cbn [t_adv_rows t_dues t_rounding].
+    rewrite (advances_reread c _ _ Hadv), rounding_reread, dues_reread. reflexivity.
 Qed.
